@@ -345,7 +345,7 @@ func runC06(c *eng.Ctx) {
 	c.Rule("R06.3", "K7")
 	if fn := c.Fn("server.(*Server).Snapshot"); fn != nil {
 		n := 0
-		eng.Instrs(fn, func(in ssa.Instruction) {
+		instrsOfAll(moduleReach(c, fn, 3), func(in ssa.Instruction) {
 			st, ok := in.(*ssa.Store)
 			if !ok {
 				return
@@ -384,7 +384,37 @@ func runC06(c *eng.Ctx) {
 			c.Unresolved("pointer stores into the snapshot object in Snapshot")
 		}
 	}
-	c.Floor(5)
+	// The snapshot is a value fixed at the instant Snapshot() returns: Raft labels it with the index applied so far and
+	// replays everything after that index on top of it. Anything read from live objects later, on the goroutine that
+	// persists it, belongs to a later index.
+	if ft := p.NamedType("server", "fsmSnapshot"); ft != nil {
+		bad := liveTypeIn(ft.Underlying(), map[types.Type]bool{}, 0)
+		c.Check(bad == "", "the snapshot object holds encoded data only", "-", "no field of fsmSnapshot can reach a live server object", "fsmSnapshot holds "+bad+": what Persist writes is whatever that object contains when Persist runs, not what it contained at the snapshot's Raft index")
+	} else {
+		c.Unresolved("type server.fsmSnapshot")
+	}
+	if fn := c.Fn("server.(*fsmSnapshot).Persist"); fn != nil {
+		bad, where := "", fn.Pos()
+		instrsOfAll(moduleReach(c, fn, 3), func(in ssa.Instruction) {
+			if bad != "" {
+				return
+			}
+			switch x := in.(type) {
+			case *ssa.FieldAddr:
+				if o := ownerNamed(x.X.Type()); o != nil && isLiveServerType(o) {
+					bad, where = "field "+o.Obj().Name()+"."+eng.FieldNameOf(x), x.Pos()
+				}
+			case ssa.CallInstruction:
+				if sc := x.Common().StaticCallee(); sc != nil && sc.Signature.Recv() != nil {
+					if o := ownerNamed(sc.Signature.Recv().Type()); o != nil && isLiveServerType(o) {
+						bad, where = "method "+o.Obj().Name()+"."+sc.Name(), x.Pos()
+					}
+				}
+			}
+		})
+		c.Check(bad == "", "Persist reads no live state", p.Pos(where), "Persist and what it calls touch only the snapshot object and the sink", "Persist reads "+bad+" while Apply keeps running: changes applied after the snapshot's Raft index leak into the snapshot, and replaying those entries on restart applies them twice (a replayed leave of a member that the snapshot no longer contains makes Apply panic)")
+	}
+	c.Floor(7)
 
 	// ---- R06.4 snapshot <-> restore agreement, one-sided flags
 	c.Rule("R06.4", "K6")
@@ -523,6 +553,54 @@ func runC06(c *eng.Ctx) {
 		q2 := &eng.PathQuery{Fn: fn, FromEdges: notTomb, Target: eng.IsCallTo("server.newStream")}
 		w2 := q2.Find()
 		c.Check(w2 == nil, "existing stream is not replaced", p.Pos(fn.Pos()), "from the not-tombstoned edge newStream is unreachable", "a live stream can be replaced by a replayed create (path "+w2.String()+")")
+	}
+	if fn := c.Fn("server.(*metadataAPI).AddStream"); fn != nil {
+		// the stream that a create yields is always built from the logged operation — also when it replaces a tombstoned
+		// incarnation during replay: re-using the old object would keep its subject, partitions, leaders, ISRs, epochs and flags
+		n, ok := 0, true
+		for _, r := range eng.Returns(fn) {
+			rv := eng.RetVals(r)
+			if len(rv) != 2 || !eng.NilConst(rv[1]) {
+				continue
+			}
+			n++
+			mk := eng.AsCall(rv[0])
+			if mk == nil || eng.CalleeRef(&mk.Call) != "server.newStream" {
+				ok = false
+				continue
+			}
+			a := mk.Call.Args
+			if !(eng.LoadNamed("Name", eng.Param("protoStream"))(a[0]) && eng.LoadNamed("Subject", eng.Param("protoStream"))(a[1])) {
+				ok = false
+			}
+		}
+		c.Check(ok && n > 0, "a created stream is built from the logged operation", p.Pos(fn.Pos()), "every successful return yields newStream(protoStream.Name, protoStream.Subject, …) of this call", "AddStream can succeed with a stream object that was not built from the operation being applied (e.g. the tombstoned incarnation re-used): after a replayed delete + create the server keeps the old subject, partitions, leaders, ISRs and epochs")
+		// … and it is what the table holds
+		stored := false
+		stF := p.Field("server", "metadataAPI", "streams")
+		eng.Instrs(fn, func(in ssa.Instruction) {
+			if mu, isMU := in.(*ssa.MapUpdate); isMU && eng.Load(stF, nil)(mu.Map) {
+				if mk := eng.AsCall(mu.Value); mk != nil && eng.CalleeRef(&mk.Call) == "server.newStream" && eng.LoadNamed("Name", eng.Param("protoStream"))(mu.Key) {
+					stored = true
+				}
+			}
+		})
+		c.Check(stored, "the new stream is registered under its name", p.Pos(fn.Pos()), "m.streams[protoStream.Name] = newStream(…)", "AddStream does not register the stream it built under protoStream.Name")
+	}
+	// the tombstone mark is only ever set; a tombstoned stream object is never revived in place
+	if tf := p.Field("server", "stream", "tombstone"); tf != nil {
+		n := 0
+		for _, fn := range p.Funcs {
+			for _, st := range eng.FieldStores(fn, func(fa *ssa.FieldAddr) bool { return fieldIs(fa, tf) }) {
+				n++
+				k, isC := st.Val.(*ssa.Const)
+				okT := isC && k.Value != nil && k.Value.String() == "true"
+				c.Check(okT, "store to stream.tombstone in "+ir.FuncKey(fn), c.Pos(st), "only ever set to true", "stream.tombstone is cleared in place: the pre-delete incarnation of a stream (old partitions, leaders, ISRs, epochs, flags) comes back to life during replay instead of being replaced by the re-created one")
+			}
+		}
+		if n == 0 {
+			c.Unresolved("stores to stream.tombstone")
+		}
 	}
 	if fn := c.Fn("server.(*Server).Apply"); fn != nil {
 		// finishedRecovery deferred exactly on l.Index == latestRecoveredLog.Index
@@ -754,7 +832,11 @@ func snapAgreement(c *eng.Ctx, typ string, writer string, readers []string) {
 	}
 	written := map[string]bool{}
 	if fn := c.Fn(writer); fn != nil {
-		eng.Instrs(fn, func(in ssa.Instruction) {
+		fns := moduleReach(c, fn, 3)
+		if pf := c.FnQuiet("server.(*fsmSnapshot).Persist"); pf != nil {
+			fns = append(fns, moduleReach(c, pf, 3)...) // which fields agree is independent of when they are written (R06.3 decides that)
+		}
+		instrsOfAll(fns, func(in ssa.Instruction) {
 			if st, ok := in.(*ssa.Store); ok {
 				if fa, ok := st.Addr.(*ssa.FieldAddr); ok && ownerName(fa) == typ {
 					if _, ok := fa.X.(*ssa.Alloc); ok {
@@ -855,4 +937,97 @@ func immutableTarget(c *eng.Ctx, t types.Type) bool {
 	}
 	immutableMemo[key] = imm
 	return imm
+}
+
+// moduleReach lists root and the module functions it reaches through static calls and closures, up to depth call levels.
+func moduleReach(c *eng.Ctx, root *ssa.Function, depth int) []*ssa.Function {
+	seen := map[*ssa.Function]bool{root: true}
+	out := []*ssa.Function{root}
+	frontier := []*ssa.Function{root}
+	for d := 0; d < depth && len(frontier) > 0; d++ {
+		var next []*ssa.Function
+		add := func(f *ssa.Function) {
+			if f == nil || seen[f] || !c.P.IsModuleFunc(f) || len(f.Blocks) == 0 {
+				return
+			}
+			seen[f] = true
+			out = append(out, f)
+			next = append(next, f)
+		}
+		for _, f := range frontier {
+			for _, a := range f.AnonFuncs {
+				add(a)
+			}
+			eng.Instrs(f, func(in ssa.Instruction) {
+				if ci, ok := in.(ssa.CallInstruction); ok {
+					add(ci.Common().StaticCallee())
+				}
+			})
+		}
+		frontier = next
+	}
+	return out
+}
+
+func instrsOfAll(fns []*ssa.Function, f func(ssa.Instruction)) {
+	for _, fn := range fns {
+		eng.Instrs(fn, f)
+	}
+}
+
+func ownerNamed(t types.Type) *types.Named {
+	if pt, ok := t.Underlying().(*types.Pointer); ok {
+		t = pt.Elem()
+	}
+	n, _ := t.(*types.Named)
+	return n
+}
+
+// isLiveServerType: a struct type of package server that represents mutable cluster state (not the snapshot object itself).
+func isLiveServerType(n *types.Named) bool {
+	if n.Obj().Pkg() == nil || ir.Short(n.Obj().Pkg().Path()) != "server" || !ir.InModule(n.Obj().Pkg().Path()) {
+		return false
+	}
+	if n.Obj().Name() == "fsmSnapshot" {
+		return false
+	}
+	_, isStruct := n.Underlying().(*types.Struct)
+	return isStruct
+}
+
+// liveTypeIn reports a live server type reachable from t through pointers, slices, arrays, maps and struct fields of
+// non-protobuf types.
+func liveTypeIn(t types.Type, seen map[types.Type]bool, depth int) string {
+	if depth > 6 || seen[t] {
+		return ""
+	}
+	seen[t] = true
+	switch x := t.(type) {
+	case *types.Named:
+		if isLiveServerType(x) {
+			return "a " + x.Obj().Name()
+		}
+		if x.Obj().Pkg() != nil && ir.InModule(x.Obj().Pkg().Path()) && ir.Short(x.Obj().Pkg().Path()) == "server" {
+			return liveTypeIn(x.Underlying(), seen, depth+1)
+		}
+		return "" // protobuf and library types are data
+	case *types.Pointer:
+		return liveTypeIn(x.Elem(), seen, depth+1)
+	case *types.Slice:
+		return liveTypeIn(x.Elem(), seen, depth+1)
+	case *types.Array:
+		return liveTypeIn(x.Elem(), seen, depth+1)
+	case *types.Map:
+		if s := liveTypeIn(x.Key(), seen, depth+1); s != "" {
+			return s
+		}
+		return liveTypeIn(x.Elem(), seen, depth+1)
+	case *types.Struct:
+		for i := 0; i < x.NumFields(); i++ {
+			if s := liveTypeIn(x.Field(i).Type(), seen, depth+1); s != "" {
+				return s
+			}
+		}
+	}
+	return ""
 }
